@@ -100,7 +100,7 @@ CHECKS = {
     ),
     "C12": dict(
         category="model_checking",
-        technique="TLC model check of the BCD laws (MC_Bcd) + TLC trace validation (Trace_C12) of recorded bcd.Encode/Decode calls",
+        technique="TLC model check of the BCD laws (MC_Bcd) + TLC trace validation (Trace_C12) of recorded bcd.Encode/Decode calls; TLAPS proofs of the per-byte nibble lemmas (spec/proofs/BcdProofs.tla, 33 obligations)",
         text="The four BCD laws are model-checked on the specification operators over all strings <=4/5 over a 12-symbol alphabet and all byte strings <=2/3; "
              "every recorded call of the real bcd.Encode/Decode on those same inputs (thorough: all 2^24 three-byte inputs, summarised) is then checked by TLC to equal the specification operator's value, "
              "including both round trips. Exhaustive within the stated bounds, position independence sampled with random long inputs.",
@@ -130,7 +130,7 @@ CHECKS = {
     ),
     "C16": dict(
         category="model_checking",
-        technique=PURE + " (rows of Before/After/Equals verdicts recomputed from the lexicographic operators) + TLC check of trichotomy / transitivity / irreflexivity and agreement with the day number on a bounded grid (MC_Order)",
+        technique=PURE + " (rows of Before/After/Equals verdicts recomputed from the lexicographic operators) + TLC check of trichotomy / transitivity / irreflexivity and agreement with the day number on a bounded grid (MC_Order); TLAPS proofs of the order laws and the segment rule over unbounded integers (spec/proofs/OrderProofs.tla, 8 obligations)",
         text="All 1441^2 HH:mm pairs (thorough; every 5th row quick), every day of four years incl. leap and century years against its calendar neighbours, the year ends of a 400-year cycle (thorough: all years), month ends, boundaries, random grids, date-time vs instant around second boundaries and around the offset changes of the operands' own locations; the segment rule (Trace_Api!CheckSegmentRule) over all ordered pairs of a boundary-rich HH:mm set through SetTimeProfile.",
         note="Trusted: TLC; whole-second timestamps logged as two 20-bit halves.",
         design="4/C16",
